@@ -32,6 +32,9 @@ type Inventory struct {
 	Funcs map[string]InvFunc `json:"funcs"` // "pkgpath Recv.Name" / "pkgpath Name"
 	Types map[string]InvType `json:"types"` // "pkgpath Name"
 	Vars  map[string]string  `json:"vars"`  // "pkgpath Name" -> type (package-level vars and consts)
+	// Lits lists, per package, the local names that function literals are bound to (name := func...): a literal
+	// bound to a name that is not listed is new and, when it is only ever called, expanded into its callers
+	Lits map[string][]string `json:"lits,omitempty"`
 }
 
 type InvFunc struct {
@@ -123,6 +126,19 @@ func BuildInventory(pkgs []*packages.Package) *Inventory {
 					continue
 				}
 				inv.Funcs[inl.FuncKey(pk.PkgPath, fd)] = InvFunc{Sig: sigString(obj.Type().(*types.Signature)), FP: fingerprint(fd)}
+				ast.Inspect(fd.Body, func(x ast.Node) bool {
+					if as, ok := x.(*ast.AssignStmt); ok && len(as.Lhs) == 1 && len(as.Rhs) == 1 {
+						if id, ok := as.Lhs[0].(*ast.Ident); ok {
+							if _, isLit := as.Rhs[0].(*ast.FuncLit); isLit {
+								if inv.Lits == nil {
+									inv.Lits = map[string][]string{}
+								}
+								inv.Lits[pk.PkgPath] = append(inv.Lits[pk.PkgPath], id.Name)
+							}
+						}
+					}
+					return true
+				})
 			}
 		}
 		sc := pk.Types.Scope()
@@ -146,7 +162,33 @@ func BuildInventory(pkgs []*packages.Package) *Inventory {
 			}
 		}
 	}
+	for k, v := range inv.Lits {
+		sort.Strings(v)
+		out := v[:0]
+		for i, x := range v {
+			if i == 0 || x != v[i-1] {
+				out = append(out, x)
+			}
+		}
+		inv.Lits[k] = out
+	}
 	return inv
+}
+
+// KnownLits turns the inventory's list of literal names into the form Normalize takes; nil when the inventory
+// has none (an inventory written before literals were listed: nothing is expanded then).
+func (inv *Inventory) KnownLits() map[string]map[string]bool {
+	if inv == nil || inv.Lits == nil {
+		return nil
+	}
+	out := map[string]map[string]bool{}
+	for k, v := range inv.Lits {
+		out[k] = map[string]bool{}
+		for _, x := range v {
+			out[k][x] = true
+		}
+	}
+	return out
 }
 
 // ReadInventoryJSON reads baseline_inventory.json.
